@@ -122,7 +122,7 @@ func runC07(e *Engine, res *EpisodeResult) {
 		return
 	}
 	ctxErrName := "canceled"
-	if cs.Kind == "timeout" || cs.Kind == "deadlinePast" {
+	if cs.Kind == "timeout" || cs.Kind == "deadlinePast" || cs.Kind == "timeoutCause" {
 		ctxErrName = "deadline"
 	}
 	// oracle 1: return value
